@@ -86,7 +86,7 @@ def run_worker(arg):
 # ---------------------------------------------------------------------------------------
 # session plans (what to do is decided here; what it must yield is decided by InfoLaws.tla)
 
-def plan_session(rng, X, Y, nx, ny, rich=True):
+def plan_session(rng, X, Y, nx, ny, rich=True, pooled=False):
     X, Y = np.asarray(X), np.asarray(Y)
     T, Fx, Fy = len(X), X.shape[1], Y.shape[1]
     nx, ny = [int(v) for v in nx], [int(v) for v in ny]
@@ -138,7 +138,8 @@ def plan_session(rng, X, Y, nx, ny, rich=True):
             ops.append({"ev": "reorder", "perm": [int(v) + 1 for v in rng.permutation(T)]})
         elif o == "split" and T >= 2:
             ncut = int(rng.randint(1, min(3, T - 1) + 1))
-            ops.append({"ev": "split", "cuts": sorted(int(v) for v in rng.choice(np.arange(1, T), size=ncut, replace=False))})
+            ops.append({"ev": "split", "cuts": sorted(int(v) for v in rng.choice(np.arange(1, T), size=ncut, replace=False)),
+                        "form": int(rng.randint(25)), "nform": int(rng.randint(3))})
         elif o == "replicate":
             k = int(rng.randint(2, 4))
             if k * T <= 64:
@@ -149,6 +150,9 @@ def plan_session(rng, X, Y, nx, ny, rich=True):
             nx, ny, Fx, Fy = ny, nx, Fy, Fx
             norm("last", "ccn", nx, ny)
     ops.append({"ev": "observe"})
+    if pooled:
+        # 18 trajectories of just under 2^16 frames each: every cell of the pooled table holds more than 2^16 counts
+        ops.append({"ev": "pooled", "k": 65000 // T, "parts": 18, "form": int(rng.randint(25)), "nform": int(rng.randint(3))})
     if rich:
         ops.append({"ev": "self"})
         lens = [Fx, Fx] if rng.randint(2) or Fx < 2 else [Fx, Fx - 1]
@@ -179,7 +183,7 @@ def kl_pairs(tier):
 
 
 CALLSITE = {"observe": "mi_matrix", "self": "mi_matrix(X,X)", "weighted": "weighted_mi", "relabel": "mi_matrix",
-            "reorder": "mi_matrix", "replicate": "mi_matrix", "split": "mi_matrix(pooled)", "swap": "mi_matrix",
+            "reorder": "mi_matrix", "replicate": "mi_matrix", "split": "mi_matrix(pooled)", "swap": "mi_matrix", "pooled": "mi_matrix(pooled)",
             "check": "check_features_states", "poolmismatch": "mi_matrix(pooled)", "kl": "kl_divergence"}
 
 
@@ -336,7 +340,8 @@ def run(ctx):
     for ci in sorted(rng.choice(len(pool), size=min(nsess, len(pool)), replace=False)):
         c = pool[ci]
         X, Y = np.array(c["X"]), np.array(c["Y"])
-        specs.append(plan_session(rng, X, Y, declared(rng, X, 0), declared(rng, Y, 0), rich=True))
+        specs.append(plan_session(rng, X, Y, declared(rng, X, 0), declared(rng, Y, 0), rich=True,
+                                  pooled=len(specs) % 10 == 3))
     nbig = 120 if ctx.tier == "quick" else 1500
     for _ in range(nbig):
         T = int(rng.choice([4, 8, 8, 12, 16, 20]))
@@ -354,7 +359,8 @@ def run(ctx):
             Y = np.stack([field() for _ in range(Fy)], axis=1)
         else:
             X, Y = rng.randint(0, mx, size=(T, Fx)), rng.randint(0, my, size=(T, Fy))
-        specs.append(plan_session(rng, X, Y, declared(rng, X, 0), declared(rng, Y, 0), rich=True))
+        specs.append(plan_session(rng, X, Y, declared(rng, X, 0), declared(rng, Y, 0), rich=True,
+                                  pooled=len(specs) % 10 == 3))
     kls = kl_pairs(ctx.tier)
 
     # ---- workers: one process per (thread count, shard)
